@@ -56,18 +56,26 @@ Definition bz (b : bool) : Z := if b then 1 else 0.
 (* Part A.  op 0: type_vars, 1: type_var.  oc: arguments of __orig_class__ when the instance has one.
    model outcome ++ demanded outcome ++ [does the class layout have the shape the driver says;
    does the model outcome meet the demand] *)
-(* the harness numbers TypeVars below 20, type arguments from 20 *)
-Definition is_tvar (v : val) : bool := match v with VTok n => Nat.ltb n 20 | _ => false end.
-
-(* full = true: the driver says the binding base got its parameters through a chain of forwarding / partially binding
+(* full = 1: the driver says the binding base got its parameters through a chain of forwarding / partially binding
    classes (at most 5 long: the call depth FUEL covers it) and ShBinding ts xs carries the declaring class's TypeVars and
-   the arguments resolved along the chain *)
-Definition shape_check (full : bool) (w : world) (c : nat) (o : option val) (s : shape) : bool :=
-  if full then match s with ShBinding ts xs => chain_binding_b is_tvar w 5 c ts xs | _ => false end
-  else shape_holds_b w c o s.
+   the arguments resolved along the chain;
+   full = 2: regions of full statements that are false on the pinned tree (open findings): ShNonGeneric - a non-generic
+   class with foreign parametrised bases; ShDirect _ None - an unparametrised instance of a class with type parameters;
+   ShBinding ts xs - the binding class statement behind subclasses of foreign parametrised bases on the MRO *)
+Definition shape_check (full : nat) (w : world) (c : nat) (o : option val) (s : shape) : bool :=
+  match full with
+  | O => shape_holds_b w c o s
+  | 1%nat => match s with ShBinding ts xs => chain_binding_b w 5 c ts xs | _ => false end
+  | _ => match s with
+         | ShNonGeneric => non_generic_b w c
+         | ShDirect _ None => has_params_b w c && match o with None => true | Some _ => false end
+         | ShBinding ts xs => mro_chain_binding_b w 5 c ts xs
+         | _ => false
+         end
+  end.
 
 Definition eval_case_tv (classes : list (nat * option (list val) * list nat * list val)) (c : nat) (oc : option (list val))
-           (op : nat) (s : shape) (full : bool) : list Z :=
+           (op : nat) (s : shape) (full : nat) : list Z :=
   let w := mk_world classes [] in
   let o := match oc with Some xs => Some (VAlias (VCls c) xs) | None => None end in
   let self := VInst c o in
@@ -132,12 +140,13 @@ Fixpoint first_per_id (seen : list nat) (cd : list mdef) : list mdef :=
    [1; code]                         get_decorated_functions raised
    [0; n; n x (member; k; k x (id; v))]   the result
    then per member of ms the demanded pairs [k; k x (id; v)], then
-   [claimed; no decorated dunder name; spec verdict on the model], then the journal [n; n x 5 numbers] *)
+   [in the domain of the statement; no raising descriptor; no decorated dunder name; spec verdict on the model],
+   then the journal [n; n x 5 numbers] *)
 Definition eval_case_dm (classes : list (nat * option (list val) * list nat * list val)) (c : nat)
            (ms : list string) (cd : list mdef) : list Z :=
   let demanded := flat_map (fun t => enc_pairs (decorated cd t)) ms in
   let jn := flat_map (def_journal prog_decorator_fun) (first_per_id [] cd) in
-  let tail r := demanded ++ [bz (claimed cd); bz (no_decorated_dunder cd); bz (spec_decorated_ok ms cd r)]
+  let tail r := demanded ++ [bz (in_domain cd); bz (no_raising_getter cd); bz (no_decorated_dunder cd); bz (spec_decorated_ok ms cd r)]
                 ++ Z.of_nat (List.length jn) :: flat_map (enc_call ms) jn in
   match build_table prog_decorator_fun cd with
   | Raise e => [3; exn_code e] ++ tail (Raise e)
